@@ -53,6 +53,7 @@ type State struct {
 	defers []ast.Node
 	Ret    token.Pos // first return statement reached on this path (0 = fell off the end)
 	Panic  bool
+	dead   bool // a violation was reported on this path: the error state is absorbing
 	tr     *trace
 }
 
@@ -133,6 +134,7 @@ type Explorer struct {
 
 func (c *Ctx) Violate(pos token.Pos, key, msg string) {
 	ex := c.ex
+	c.S.dead = true
 	if _, ok := ex.viol[key]; ok {
 		return
 	}
@@ -496,6 +498,9 @@ func (ex *Explorer) run(body *ast.BlockStmt, s0 *State, inDefer bool) []*State {
 		returned := false
 		panicked := false
 		for _, n := range it.b.Nodes {
+			if st.dead {
+				break
+			}
 			lastExpr = nil
 			if ex.R.Node != nil {
 				ex.R.Node(c, n)
@@ -553,6 +558,9 @@ func (ex *Explorer) run(body *ast.BlockStmt, s0 *State, inDefer bool) []*State {
 				ex.scan(c, n, false)
 			}
 		}
+		if st.dead {
+			continue
+		}
 		if returned || panicked || len(it.b.Succs) == 0 {
 			st.Panic = panicked
 			outs := []*State{st}
@@ -573,12 +581,17 @@ func (ex *Explorer) run(body *ast.BlockStmt, s0 *State, inDefer bool) []*State {
 					case *ast.CallExpr:
 						c2 := &Ctx{W: ex.W, Info: ex.Info, S: o2, ex: ex, InDefer: true}
 						ex.scanCallOnly(c2, dd)
-						next = append(next, o2)
+						if !o2.dead {
+							next = append(next, o2)
+						}
 					}
 				}
 				outs = next
 			}
 			for _, o := range outs {
+				if o.dead {
+					continue
+				}
 				if len(o.defers) > baseDefers {
 					o.defers = o.defers[:baseDefers]
 				}
@@ -597,7 +610,7 @@ func (ex *Explorer) run(body *ast.BlockStmt, s0 *State, inDefer bool) []*State {
 				if ex.R.Branch != nil {
 					bc := &Ctx{W: ex.W, Info: ex.Info, S: s1, ex: ex, InDefer: inDefer}
 					ex.R.Branch(bc, lastExpr, val)
-					if bc.Prune {
+					if bc.Prune || s1.dead {
 						continue
 					}
 				}
